@@ -302,3 +302,6 @@ def run(ctx):
         ok = bool(clears) and all(any(of.cfg.dominates(c_, s_) for c_ in clears) for s_ in succ)
         ctx.ob('DIAG-CLEAR', 'psf_open_file:%s' % var, ok, of.loc(clears[0]) if clears else of.loc(succ[0]), ('%s is cleared at %s, which dominates the success return' % (var, of.loc(clears[0]))) if ok else
                '%s is not cleared on every path to the success return: after a failed open of one file, a successful open of another leaves the old error visible through sf_error (NULL)' % var, None)
+
+    from engine.run import borrow
+    borrow(ctx, 'C07', ['UNINIT-SERIAL'], 'stack residue serialised into a header is whatever earlier library calls - on this or any other handle - left there: the file then depends on the process history')
